@@ -129,6 +129,11 @@ def check(spec, ctx):
             raise Violation("tick-text-unreadable", "%r" % s_)
         if abs(v - x) > 1e-3 * stf:
             raise Violation("tick-text-readback", "tick %r formatted as %r (step %r)" % (x, s_, stf))
+    # a formatter fetched earlier keeps formatting the same way whatever is asked of the scale afterwards
+    other = lib_call(s.tickFormat, 3 if (m or 10) > 20 else 97)
+    lib_call(other, t[0])
+    if [lib_call(fmt, x) for x in t] != txt:
+        raise Violation("formatter-changes-after-later-tickFormat-call", "domain [%r, %r]: the formatter for m=%r formats differently after tickFormat() was called with another count" % (a, b, m))
     # the same scale object, asked again after nice(): its ticks must be those of a fresh scale with the domain it now reports
     t_again = lib_call(lambda: list(s.ticks(m)))
     if t_again != t:
